@@ -483,12 +483,12 @@ func FromGo(x any, e *Embedding) (*Value, error) {
 			rep = "int64_any"
 		}
 		out := &Value{K: "map", Rep: rep, Pairs: [][2]*Value{}}
-		for _, k := range rv.MapKeys() {
-			ka, err := FromGo(k.Interface(), e)
+		for iter := rv.MapRange(); iter.Next(); { // MapIndex cannot find a NaN key
+			ka, err := FromGo(iter.Key().Interface(), e)
 			if err != nil {
 				return nil, err
 			}
-			va, err := FromGo(rv.MapIndex(k).Interface(), e)
+			va, err := FromGo(iter.Value().Interface(), e)
 			if err != nil {
 				return nil, err
 			}
